@@ -1098,6 +1098,8 @@ impl BigRat {
 	}
 
 	pub(crate) fn permutation<I: Interrupt>(self, rhs: Self, int: &I) -> FResult<Self> {
+		// r must be a non-negative integer (n and n - r are checked by `factorial`)
+		rhs.clone().apply_uint_op(|_, _| Ok(()), int)?;
 		let n_factorial = self.clone().factorial(int)?;
 		let n_minus_r_factorial = self.add(-rhs, int)?.factorial(int)?;
 		n_factorial.div(&n_minus_r_factorial, int)
